@@ -174,3 +174,9 @@ pub mod verif_hooks {
       .collect()
   }
 }
+
+/// verification hooks of the interactive printer (accept-all filter, splice, update-all)
+#[cfg(feature = "verif-hooks")]
+pub mod verif_hooks_interactive {
+  pub use super::interactive_print::verif_hooks::*;
+}
